@@ -14,7 +14,8 @@ Definition name := list N.                 (* file name bytes *)
 Inductive tree :=
 | File (content : list N)
 | Dir (entries : list (name * tree))
-| Link.                                    (* a symbolic link to a directory outside DIR and DIR.old *)
+| Link                                     (* a symbolic link to a foreign directory outside DIR and DIR.old *)
+| ULink.                                   (* a symbolic link to a uftrace data directory outside DIR and DIR.old *)
 Definition slot := option tree.            (* None = the path does not exist *)
 Record world := { dir : slot; old : slot }.
 
@@ -50,26 +51,38 @@ Definition is_uftrace_directory (es : list (name * tree)) : bool :=
   | Some (File c) => list_eqb (sig_of c) magic8          (* open ok: the magic decides *)
   | Some (Dir _) => false                                  (* open ok, read fails: sig stays zero *)
   | Some Link => false                                     (* opens the directory it points to: read fails as well *)
+  | Some ULink => false
   | None => match lookup n_default_opts es with Some _ => true | None => false end
   end.
 Definition is_empty_directory (es : list (name * tree)) : bool :=
   match es with [] => true | _ => false end.
 
-(* can_remove_directory(path): exists and (uftrace data or empty); a plain file is neither *)
+(* can_remove_directory(path): exists and (uftrace data or empty); a plain file is neither.  access(), open() and
+   opendir() follow a symbolic link: a link to uftrace data elsewhere passes the test *)
 Definition can_remove (s : slot) : bool :=
   match s with
   | Some (Dir es) => is_uftrace_directory es || is_empty_directory es
+  | Some ULink => true
   | _ => false
   end.
+(* lstat() says S_ISDIR: a real directory, not a link to one *)
+Definition real_dir (s : slot) : bool := match s with Some (Dir _) => true | _ => false end.
+Definition exists_ (s : slot) : bool := match s with Some _ => true | None => false end.
 
 Inductive result := OK | Error.
 
-(* rename(DIR, DIR.old): the target may only be absent or an empty directory *)
+(* rename(DIR, DIR.old).  A directory: the target may only be absent or an empty directory.  A symbolic link (DIR is a
+   link to a directory): the target may be absent - or a file or a link, which rename() REPLACES without asking; only a
+   directory in the way makes it fail (EISDIR) *)
 Definition rename_ok (src dst : slot) : bool :=
   match src, dst with
   | Some (Dir _), None => true
   | Some (Dir _), Some (Dir []) => true
-  | _, _ => false
+  | Some (Dir _), _ => false
+  | Some (File _), _ => false
+  | Some _, Some (Dir _) => false
+  | Some _, _ => true
+  | None, _ => false
   end.
 
 (* fopen("DIR/default.opts", "w") ; write ; close   -- only possible inside a directory, and not
@@ -89,12 +102,18 @@ Definition write_default_opts (opts : list N) (s : slot) : slot :=
   | _ => s
   end.
 
-(* create_directory.  [guarded] = create_default_opts is called only after a successful
-   mkdir (the code after the "fix:" commit); [guarded = false] is the code as found. *)
+(* create_directory.  [guarded] = the code after the "fix:" commits: create_default_opts is called only after a
+   successful mkdir, and a DIR.old that exists but is not a real directory holding uftrace data (or nothing) makes
+   the run fail before anything is renamed; [guarded = false] is the code as found, which left that to rename() -
+   enough when DIR is a directory (rename fails), not when DIR is a symbolic link (rename replaces a file or link). *)
 Definition create_directory (guarded : bool) (opts : list N) (w : world) : world * result :=
   let rotate := can_remove (dir w) in
+  let old_ours := real_dir (old w) && can_remove (old w) in
+  (* guarded: refuse; as found: remove_directory() of a link to uftrace data empties the target and fails at rmdir *)
+  if rotate && exists_ (old w) && negb old_ours && (guarded || can_remove (old w)) then (w, Error)
+  else
   (* remove an old DIR.old that is uftrace data or empty *)
-  let old1 := if rotate && can_remove (old w) then None else old w in
+  let old1 := if rotate && old_ours then None else old w in
   if rotate && negb (rename_ok (dir w) old1) then ({| dir := dir w; old := old1 |}, Error)
   else
     let w1 := if rotate then {| dir := None; old := dir w |} else {| dir := dir w; old := old1 |} in
@@ -130,6 +149,7 @@ Fixpoint tree_eqb (a b : tree) {struct a} : bool :=
   match a, b with
   | File x, File y => list_eqb x y
   | Link, Link => true
+  | ULink, ULink => true
   | Dir xs, Dir ys =>
       (fix go (l1 l2 : list (name * tree)) {struct l1} : bool :=
          match l1, l2 with
@@ -186,6 +206,7 @@ Fixpoint norm (t : tree) : tree :=
   match t with
   | File c => File c
   | Link => Link
+  | ULink => ULink
   | Dir es => Dir (fold_right insert_entry [] (map (fun e => (fst e, norm (snd e))) es))
   end.
 Definition norm_slot (s : slot) : slot := option_map norm s.
@@ -231,6 +252,7 @@ Definition live_run (guarded_cleanup : bool) (w : world) (r : run) : world :=
 Fixpoint has_link (t : tree) : bool :=
   match t with
   | Link => true
+  | ULink => false
   | File _ => false
   | Dir es => (fix go (l : list (name * tree)) : bool :=
                  match l with [] => false | (_, u) :: r => has_link u || go r end) es
